@@ -564,7 +564,7 @@ func (in Input) envTags() []string {
 
 // one case of the operator-environment class
 func genEnvCase(r *core.Rng) Input {
-	exits := []int{0, 0, 0, 1, 2, 137}
+	exits := []int{0, 0, 0, 1, 2, 137, -9, -15}
 	in := Input{Exit: exits[r.Intn(len(exits))], Metrics: "empty", Patch: "empty", Admission: "empty", Conversion: "empty", Concurrent: r.Chance(25)}
 	// outputs: mostly something to lose
 	for f := 0; f < 4; f++ {
@@ -652,7 +652,7 @@ func Gen(r *core.Rng, tier string) ([]core.In[Input], bool) {
 	for _, in := range envCorpus() {
 		add(in, "env-corpus")
 	}
-	exits := []int{0, 1, 2, 137}
+	exits := []int{0, 1, 2, 137, -9, -15, -11}
 	if tier == "quick" {
 		genTexts(r.Fork(), "metrics", 126, add)
 		genTexts(r.Fork(), "admission", 30, add)
@@ -677,7 +677,7 @@ func Gen(r *core.Rng, tier string) ([]core.In[Input], bool) {
 			}
 		}
 		for i := 0; i < 60; i++ {
-			add(Input{Exit: exits[r.Intn(4)], Metrics: kinds[r.Intn(4)], Patch: kinds[r.Intn(4)], Admission: kinds[r.Intn(4)], Conversion: kinds[r.Intn(4)], Concurrent: r.Chance(30)}, "random")
+			add(Input{Exit: exits[r.Intn(len(exits))], Metrics: kinds[r.Intn(4)], Patch: kinds[r.Intn(4)], Admission: kinds[r.Intn(4)], Conversion: kinds[r.Intn(4)], Concurrent: r.Chance(30)}, "random")
 		}
 		er := r.Fork()
 		for i := 0; i < 56; i++ {
